@@ -91,7 +91,7 @@ def r2(ctx: Ctx) -> None:
         if not ok and unknown_series(ret):
             ctx.unrec(f, f.node, "out-of-band limit prices are clamped to p0(1-r) .. p0(1+r), p0 = the given market's price at time 0", "the reference price is read from something that stands in for the recorded series (not the series itself)", found)
             continue
-        ctx.check(ok, f, f.node, "out-of-band limit prices are clamped to p0(1-r) .. p0(1+r), p0 = the given market's price at time 0", "min(max(price, p0*(1-r)), p0*(1+r))", found)
+        ctx.check(ok, f, f.node, "out-of-band limit prices are clamped to p0(1-r) .. p0(1+r), p0 = the given market's price at time 0", "min(max(price, p0*(1-r)), p0*(1+r))", found, guard="text")
     ctx.require(n >= 3, f"{PLR}.get_limited_price: returning paths not found")
     # handler: the price written is the helper's result for the order's own market
     h = ctx.func(f"{PLR}.hooked_before_order")
